@@ -96,7 +96,7 @@ def stepWith (rs : AMap → Undo → AMap) (m : VarMap) : Op → VarMap
   | .use _ => m
   | .guse _ => m
   | .skip => m
-  | .hide _ => m                                -- the table never learns about enumerators (finding F18)
+  | .hide _ => m                                -- the table never learns about enumerators (finding F8b)
 
 /-- the ids written to name tokens by one event (0 = the token keeps varid 0) -/
 def emit (m : VarMap) : Op → List VId
@@ -216,7 +216,7 @@ def dupInScope : List (List VName) → List Op → Bool
 
 /-- Hypothesis of the partial theorems (decidable; evaluated along the specification): whenever an enumerator `x`
 becomes visible, no VARIABLE named `x` is visible at that point.  The excluded programs are exactly those in which an
-enumerator hides a variable (finding F18: `int x; int f(void){ enum { x = 5 }; return x; }`). -/
+enumerator hides a variable (finding F8b: `int x; int f(void){ enum { x = 5 }; return x; }`). -/
 def noVarHidden : Spec → List Op → Bool
   | _, [] => true
   | s, o :: r =>
